@@ -54,8 +54,6 @@ inductive Fault
   | uninitMaLen
   /-- a fault inside `trx_if_handle_phyif_cmd` -/
   | trxcon (f : TrxconIf.Fault)
-  /-- `trxcon_phyif_handle_cmd` of the tree is no longer the plain forwarder to `trx_if_handle_phyif_cmd` -/
-  | phyifNotForwarder
 deriving DecidableEq, Repr
 
 def u8 (x : Nat) : Nat := x % 256
@@ -263,8 +261,7 @@ def trxconPath (msg : L1ctlH1) : Except Fault (Int × List (List Nat)) := do
   match ← trxconProcEstReqH1 msg with
   | .error rc => return (rc, [])
   | .ok req =>
-    -- trxcon_phyif_handle_cmd(trxcon->phyif, &phycmd) = trx_if_handle_phyif_cmd(phyif, cmd)
-    if !Gen.HopChain.phyifForwards then throw .phyifNotForwarder
+    -- trxcon_phyif_handle_cmd(trxcon->phyif, &phycmd) (trxcon_main.c) is `return trx_if_handle_phyif_cmd(phyif, cmd);`
     match TrxconIf.cPhyCmd { state := Gen.Trxcon.stIdle, prevState := Gen.Trxcon.stOffline } (handleDchEstReq req) with
     | .error f => throw (.trxcon f)
     | .ok (rc, t) => return (rc, t.sent)
